@@ -151,6 +151,27 @@ pub fn scenario_honest_dkg<C: Suite>(rng: &mut TestRng, p: &Params, notes: &mut 
         )?;
     }
 
+    // "the shares lie on the sum of the participants' polynomials": s_i = sum_j f_j(i), every term of every polynomial evaluated
+    // here by plain powers (not for the Taproot suite, whose post-processing shifts every share by the tweak: see C18)
+    for (id, kp) in key_packages.iter().filter(|_| !C::IS_TAPROOT) {
+        let x = id_scalar::<C>(id)?;
+        let mut want = zero::<C>();
+        for sp in run.r1_secret.values() {
+            let mut pw = one::<C>();
+            for c in sp.coefficients() {
+                want = want + c * pw;
+                pw = pw * x;
+            }
+        }
+        let got = share_scalar::<C>(kp.signing_share())?;
+        check(
+            got == want,
+            "the signing share is the sum of all participants' polynomials (all t coefficients each) evaluated at the participant's identifier",
+            hex(&scalar_bytes::<C>(&want)),
+            hex(&scalar_bytes::<C>(&got)),
+        )?;
+    }
+
     // the shares lie on ONE polynomial of degree t-1: every t-subset interpolates to the same secret,
     // whose public key is the group key; t+1 shares give the same.
     let mut secrets = Vec::new();
